@@ -480,7 +480,7 @@ func C05(r *core.Run) {
 				defer wg.Done()
 				defer func() { <-sem }()
 				var w rawhttp.Builder
-				w.Line("GET /c05/" + c.ID + " HTTP/1.1").Field("Host", "c05.example").Field("Accept-Encoding", "identity")
+				w.Line("GET /c05/"+c.ID+" HTTP/1.1").Field("Host", "c05.example").Field("Accept-Encoding", "identity")
 				if c.Wrapped {
 					w.Field("Accept", "text/html,*/*;q=0.8") // goes through the banner's response writer (the response itself is not HTML)
 				}
